@@ -105,12 +105,14 @@ class TlcResult:
 
 
 _tlc_counter = [0]
+_tlc_lock = __import__("threading").Lock()
 
 
 def tlc(module, cfg, workers=None, timeout=1200, env=None, args=(), heap=None, simulate=None, coverage=False):
     """Run TLC on spec/<module>.tla with configuration cfg (path or name in spec/)."""
-    _tlc_counter[0] += 1
-    meta = os.path.join(scratch(), "tlcmeta%d" % _tlc_counter[0])
+    with _tlc_lock:
+        _tlc_counter[0] += 1
+        meta = os.path.join(scratch(), "tlcmeta%d" % _tlc_counter[0])
     cfgp = cfg if os.path.isabs(cfg) else os.path.join(SPEC, cfg)
     cmd = ["java", "-XX:+UseParallelGC", "-Xss64m"]
     if heap:
@@ -257,6 +259,46 @@ def validate_trace(module, cfg, trace_path, timeout=1200, env=None, heap="4g"):
     if not v.complete:
         raise ToolFailure("trace not consumed completely by %s: %d of %d lines\n%s" % (module, v.consumed, v.total, r.out[-2000:]))
     return v
+
+
+def validate_trace_parallel(module, cfg, trace_path, parts=8, timeout=2400, heap="4g"):
+    """Split the trace at execution boundaries (Reset events) into `parts` files and validate them with
+    concurrent TLC processes; line numbers of rejections are mapped back to the whole trace."""
+    import concurrent.futures
+    with open(trace_path) as f:
+        lines = f.readlines()
+    starts = [i for i, l in enumerate(lines) if l.startswith('{"e":"Reset"')]
+    if len(starts) < 2 * parts or len(lines) < 4000:
+        return validate_trace(module, cfg, trace_path, timeout=timeout, heap=heap)
+    # balance by number of lines
+    target = len(lines) / parts
+    cuts = [0]
+    for st in starts[1:]:
+        if st - cuts[-1] >= target and len(cuts) < parts:
+            cuts.append(st)
+    cuts.append(len(lines))
+    files = []
+    for k in range(len(cuts) - 1):
+        fp = "%s.part%d" % (trace_path, k)
+        with open(fp, "w") as f:
+            f.writelines(lines[cuts[k]:cuts[k + 1]])
+        files.append((fp, cuts[k]))
+    out = TraceVerdict()
+    out.tlc = None
+    with concurrent.futures.ThreadPoolExecutor(max_workers=len(files)) as ex:
+        futs = [ex.submit(validate_trace, module, cfg, fp, timeout, None, heap) for fp, _ in files]
+        for (fp, off), fu in zip(files, futs):
+            v = fu.result()
+            out.consumed += v.consumed
+            out.total += v.total
+            out.rejections += [[r[0], r[1] + off, r[2]] for r in v.rejections]
+            if out.tlc is None:
+                out.tlc = v.tlc
+            else:
+                out.tlc.prints += v.tlc.prints
+                out.tlc.wall = max(out.tlc.wall, v.tlc.wall)
+            os.remove(fp)
+    return out
 
 
 def load_known_findings():
